@@ -709,7 +709,11 @@ def engine_stage(name, tier):
             fh.write('\n'.join(l for l in txt.splitlines() if not l.startswith('<<"RP"'))[-200000:])
         return res
 
-    return stage(key, run, scope='spec')
+    r = stage(key, run, scope='spec')
+    # the cache directory may be reached through different paths (shared between copies of /verif): never trust a stored path
+    r['_dir'] = stage_dir(key, 'spec')
+    r['behaviours_file'] = os.path.join(r['_dir'], 'behaviours.ndjson')
+    return r
 
 
 # --------------------------------------------------------------------------- known findings
